@@ -1,7 +1,10 @@
 """A class whose base is a namedtuple(...) call keeps the call in the stub; mypy's synthetic `Name@base1` class is then reported by stubtest as not present at run time.
 
 Exit status 1 = defect present, 0 = absent, 2 = inconclusive (preconditions of the input failed).
-Mechanism keys: stubtest:parse-only:unlisted-name:is not present at runtime, stubtest:semantic:unlisted-name:is not present at runtime"""
+Mechanism keys:
+  stubtest:parse-only:unlisted-name:is not present at runtime
+  stubtest:semantic:unlisted-name:is not present at runtime
+"""
 import os
 import sys
 
